@@ -20,13 +20,12 @@ import (
 	"github.com/tidwall/resp"
 	"log"
 	"net"
-	"sync"
 )
 
 type Channel struct {
 	name             string                   // Channel name. This can be a glob pattern string.
 	pattern          glob.Glob                // Compiled glob pattern. This is nil if the channel is not a pattern channel.
-	subscribersRWMut sync.RWMutex             // RWMutex to concurrency control when accessing channel subscribers.
+	subscribersRWMut verifhook.RWMutex        // RWMutex to concurrency control when accessing channel subscribers.
 	subscribers      map[*net.Conn]*resp.Conn // Map containing the channel subscribers.
 	messageChan      *chan string             // Messages published to this channel will be sent to this channel.
 }
@@ -52,7 +51,7 @@ func NewChannel(options ...func(channel *Channel)) *Channel {
 	channel := &Channel{
 		name:             "",
 		pattern:          nil,
-		subscribersRWMut: sync.RWMutex{},
+		subscribersRWMut: verifhook.RWMutex{},
 		subscribers:      make(map[*net.Conn]*resp.Conn),
 		messageChan:      &messageChan,
 	}
@@ -60,6 +59,7 @@ func NewChannel(options ...func(channel *Channel)) *Channel {
 	for _, option := range options {
 		option(channel)
 	}
+	verifhook.NameLock(&channel.subscribersRWMut, "pubsub.subscribers")
 
 	return channel
 }
